@@ -54,6 +54,13 @@ class LssSlave:
         if m == "silence":
             return []
         rcs = cs ^ 0x21 if m == "wrongcs" else cs
+        if m == "sibling":      # the reply of a neighbouring service of the same family
+            if 0x5A <= cs <= 0x5D:
+                rcs = 0x5A + (cs - 0x5A + 1) % 4
+            elif cs == 0x5E:
+                rcs = 0x5D
+            else:
+                rcs = {0x11: 0x13, 0x13: 0x17, 0x17: 0x11}.get(cs, cs ^ 0x21)
         if cs in (0x11, 0x13, 0x17):
             err = int(m.split(":")[1]) if m.startswith("err") else 0
             if cs == 0x11 and not err:
